@@ -13,6 +13,7 @@ import Cfdm.Driver.C08
 import Cfdm.Driver.C02
 import Cfdm.Driver.C04
 import Cfdm.Driver.C11
+import Cfdm.Driver.C10
 open Cfdm.Driver
 
 def step (line : String) : String :=
@@ -37,6 +38,7 @@ def step (line : String) : String :=
       | ["C02", sub] => C02.run sub kv
       | ["C04", sub] => C04.run sub kv
       | ["C11", sub] => C11.run sub kv
+      | ["C10", sub] => C10.run sub kv
       | _ => "bad-op"
 
 partial def loop (h : IO.FS.Stream) : IO Unit := do
